@@ -21,11 +21,11 @@ theorem count_erase_nat (l : List Nat) (a k : Nat) : (l.erase a).count k = l.cou
     simp [h, this]
 
 /-- `get_next_non_expired_job`: what leaves the queue is untracked, unless it is returned -/
-theorem getNextNonExpired_tracks (mq : List Job) (pend : List Nat) (e : Env) (c : Nat → Nat)
+theorem getNextNonExpired_tracks {hd : Option Nat} (mq : List Job) (pend : List Nat) (e : Env) (c : Nat → Nat)
     (h : ∀ k, pend.count k = c k + (mq.map (·.key)).count k) :
-    ∀ k, (getNextNonExpired mq pend e).2.2.1.count k =
-      c k + ((getNextNonExpired mq pend e).2.1.map (·.key)).count k
-        + ((getNextNonExpired mq pend e).1.toList.map (·.key)).count k := by
+    ∀ k, (getNextNonExpired hd mq pend e).2.2.1.count k =
+      c k + ((getNextNonExpired hd mq pend e).2.1.map (·.key)).count k
+        + ((getNextNonExpired hd mq pend e).1.toList.map (·.key)).count k := by
   induction mq generalizing pend e with
   | nil => intro k; simp [getNextNonExpired]; exact h k
   | cons j rest ih =>
@@ -271,6 +271,7 @@ theorem slotOk_inv : SlotInv SlotOk where
         exact this
   draining := fun p b h => ⟨h.one, h.tracks⟩
   disc := fun p d h => ⟨h.one, h.tracks⟩
-  fresh := fun wid aid d => ⟨by simp, fun k => by simp [keysCurr, keysMq]⟩
+  handler := fun p hd h => ⟨h.one, h.tracks⟩
+  fresh := fun wid aid d hd => ⟨by simp, fun k => by simp [keysCurr, keysMq]⟩
 
 end Factory
